@@ -181,6 +181,11 @@ func TestC11_IetfCannotTouchKeys(t *testing.T) {
 					}
 				}
 			}
+			if kind, ok := op["op"].(string); ok && kind != "" && rapid.IntRange(0, 9).Draw(t, "opNameCase") == 0 {
+				// operation names are case-sensitive: "Move" is no operation. Whoever takes it for one anywhere must take it
+				// for one everywhere
+				op["op"] = rapid.SampledFrom([]string{strings.ToUpper(kind[:1]) + kind[1:], strings.ToUpper(kind), kind + " "}).Draw(t, "opNameSpelling")
+			}
 			if mentionsProtected(op) {
 				mentions = true
 			}
